@@ -134,10 +134,12 @@ containment("_messages:_unpack_ldap_result", options=_PO, local_types={"referral
                      "reader._view == (rest_of(v3) if (len(v3) > 0 and id_class(v3) == 2 and id_number(v3) == 3) else v3)",
                      # ... and its URIs are the contents of the elements of the referral, in order
                      "implies(result.referrals is not None, len(nth_rest(content_of(v3), len(result.referrals))) == 0)",
+                     "implies(result.referrals is not None, forall(q, 0, len(result.referrals), len(nth_rest(content_of(v3), q)) > 0))",
                      "implies(result.referrals is not None, forall(q, 0, len(result.referrals), result.referrals[q] == unutf8(content_of(nth_rest(content_of(v3), q)))))"],
             loops={0: dict(snapshot={"r0": "referral_reader._view"},
                            invariant=["referral_reader._view == nth_rest(r0, len(referrals))",
-                                      "forall(q, 0, len(referrals), referrals[q] == unutf8(content_of(nth_rest(r0, q))))"],
+                                      "forall(q, 0, len(referrals), referrals[q] == unutf8(content_of(nth_rest(r0, q))))",
+                                      "forall(q, 0, len(referrals), len(nth_rest(r0, q)) > 0)"],
                            snapshot_each={"k0": "len(referrals)", "prev": "referrals"},
                            body_hints=["lemma_nth_rest_step(r0, k0)", "len(referrals) == k0 + 1",
                                        "forall(q, 0, k0, referrals[q] == prev[q])",
